@@ -66,5 +66,8 @@ func DefaultParser[T constraint.ParserInput](input T, r Rule) (date Date, err er
 	year, _ := strconv.Atoi(string(parts[1]))
 	month, _ := strconv.Atoi(string(parts[2]))
 	day, _ := strconv.Atoi(string(parts[3]))
+	if !validDay(year, Month(month), day) { // e.g. month 00, day 00 or February 30th
+		return Date{}, newParseError(funcName, input, nil)
+	}
 	return New(year, Month(month), day), nil
 }
